@@ -725,7 +725,7 @@ fn hashcode_equals_overrides(name: &str, members: &[Field], call_super: bool) ->
         public boolean equals(Object o) {
             if (this == o) return true;
             $(if members.is_empty() {
-                return $(if call_super => super.equals(other) &&) o instanceof $name;
+                return $(if call_super => super.equals(o) &&) o instanceof $name;
             } else {
                 if (!(o instanceof $name other)) return false;
                 return $(if call_super => super.equals(other) &&)
@@ -738,7 +738,7 @@ fn hashcode_equals_overrides(name: &str, members: &[Field], call_super: bool) ->
         @Override
         public int hashCode() {
             $(if members.is_empty() {
-                return $(if call_super => 31 * super.equals(other) +)
+                return $(if call_super => 31 * super.hashCode() +)
                     this.getClass().getSimpleName().hashCode();
             } else {
                 $(let mut members = members.iter())
